@@ -116,6 +116,11 @@ def replay(d):
 def check(run):
     run.level = "fault_enumeration"
     PC.deductive(run)
+    # the search stage itself, in its own view (one list of records per condition): a raising search and a timed-out search become an
+    # issue text on the record of that reaction only; records keep the id of the reaction they were computed for
+    run.deductive(["contracts.mcs_process"])
+    run.assume("thread pool: sequential model - after AsyncResult.get() times out the abandoned worker thread is assumed not to write the record "
+               "any more (ThreadPool.terminate does not stop a running thread; concurrency is outside this family)")
     rnd = random.Random(run.seed)
     batch = BATCH
     base = P.rebalance(batch)
